@@ -517,6 +517,27 @@ MULTI_CONSTS = [(True, 1.0), (1.0, True), (True, 1), (1, True), (1, 1.0), (1.0, 
                 (2, 2.0), (2.0, 2), (1e3, 1000), (1000, 1e3), (0.5, True, 0.5), (True, True, 1.0)]
 
 
+def pair_line_error(model: core.Model, text: str, s1: str, s2: str) -> Optional[str]:
+    """The line `double result = g_pair_value(*o, L1, L2) + g_pair_value(*o, L2, L1);`: L1, L2 literals of s1, s2."""
+    i = text.find("g_pair_value(*")
+    if i < 0:
+        return "the injected call is not in the generated file"
+    rest = text[i:]
+    for k, want in enumerate((s1, s2, s2, s1)):
+        m = re.match([r"g_pair_value\(\*i_obj\d+, ", r", ", r"\) \+ g_pair_value\(\*i_obj\d+, ", r", "][k], rest)
+        if not m:
+            return f"before argument {k + 1} comes {rest[:30]!r}"
+        rest = rest[m.end():]
+        got = model.call("c18.lex_prefix", rest[:6000])
+        if got[0] != "some":
+            return f"not a C++ literal: {rest[:40]!r}"
+        bad = literal_matches(got[1], want)
+        if bad:
+            return f"literal for {want!r}: {bad}"
+        rest = got[2]
+    return None if rest.startswith(");") else f"after the last literal comes {rest[:30]!r}"
+
+
 def check(tier: str, seed: int, t0: float, build: core.BuildStatus) -> int:
     import logging
 
@@ -601,7 +622,6 @@ def check(tier: str, seed: int, t0: float, build: core.BuildStatus) -> int:
             want = ["true", "true" if math.isfinite(x) else "false", "true" if math.isfinite(x) else "false"]
             if g != want:
                 oc.correspondence_breaks.append({"float_repr": repr(x), "py_float_repr/py_float_finite/cpp_float_lit": g, "expected": want})
-        model.close()
     # several constants in one query: each is rendered as it is when it stands alone (kind and text), whatever other
     # constants of equal value but another kind the query contains
     alone: Dict[Any, Any] = {}
@@ -651,6 +671,38 @@ def check(tier: str, seed: int, t0: float, build: core.BuildStatus) -> int:
             else:
                 oc.traces_validated_against_impl += 1
     oc.extra["two_bank_queries"] = two_n
+    # several string constants as arguments of ONE injected call (so several literals on one line of C++): each literal is
+    # its own constant, whatever stands next to it (empty strings, strings that begin or end with a quote or a backslash)
+    pair_n = 0
+    pair_pool = ["", "", '"', '""', "\\", 'a"', '"a', "x", "5\"", " ", ", ", '", "', "\\\"", "tag", "pt"]
+    pair_md = [{"metadata_type": "add_cpp_function", "name": "fill_pair", "code": ["double result = g_pair_value(*jet, first, second) + g_pair_value(*jet, second, first);"],
+                "result": "result", "include_files": [], "arguments": ["jet", "first", "second"], "return_type": "double"}]
+    if model is not None:
+        for b in BACKENDS:
+            c, bank0, _ = COLL[b]
+            for _ in range(20 if tier == "quick" else 200):
+                s1 = rng.choice(pair_pool) if rng.random() < 0.75 else gen_string(rng)
+                s2 = rng.choice(pair_pool) if rng.random() < 0.75 else gen_string(rng)
+                if not (encodable(s1) and encodable(s2)):
+                    continue
+                src = f'ds.Select(lambda e: e.{c}("{bank0}").Select(lambda j: fill_pair(j, {s1!r}, {s2!r})))'
+                r = impl.translate(b, impl.query_ast(src, pair_md))
+                impl.reset_globals()
+                oc.evaluations += 1
+                pair_n += 1
+                rp = {"kind": "pair", "backend": b, "query": src, "constants": [s1, s2]}
+                if r[0] != "ok":
+                    oc.violations.append(core.Violation(key="c18:str:pair-refused", what=f"{b}: {src} refused: {r[1:]}", replay=rp))
+                    continue
+                text = r[1]["files"][MAIN[b]]["text"]
+                bad = pair_line_error(model, text, s1, s2)
+                if bad:
+                    oc.violations.append(core.Violation(key="c18:str:pair", what=f"{b}: the constants {s1!r}, {s2!r} as arguments of one injected call: {bad}", replay=rp))
+                else:
+                    oc.traces_validated_against_impl += 1
+    oc.extra["two_strings_in_one_injected_call"] = pair_n
+    if model is not None:
+        model.close()
     oc.distinct_nontrivial = len(distinct)
     oc.rule = (f"corpus ({n_corpus}) + exhaustive part ({len(exh)}: strings of length <= 2 over {EXH_ALPHABET!r} at bank/arg/tree/column/attribute positions, "
                f"{len(INT_EDGES)} integer and {len(FLOAT_EDGES)} float boundary values, booleans, non-literal constants, x 3 back ends) + {n_random} random (45% expression positions: "
@@ -690,6 +742,31 @@ def replay(path: str, build: core.BuildStatus) -> int:
             want.append(r1[1][0] if r1[0] == "ok" else ("error", r1[1]))
         print("constants:", consts, "\nrendered together:", got, "\nrendered alone:", want)
         if got[0] != "ok" or list(got[1]) != want:
+            print(f"VIOLATION property={PID} replay={path}")
+            return 1
+        return 0
+    if data.get("kind") in ("pair", "twobanks"):
+        md = None
+        if data["kind"] == "pair":
+            md = [{"metadata_type": "add_cpp_function", "name": "fill_pair", "code": ["double result = g_pair_value(*jet, first, second) + g_pair_value(*jet, second, first);"],
+                   "result": "result", "include_files": [], "arguments": ["jet", "first", "second"], "return_type": "double"}]
+        r = impl.translate(data["backend"], impl.query_ast(data["query"], md))
+        print("query:", data["query"])
+        if r[0] != "ok":
+            print("implementation refuses:", r[1:3])
+            print(f"VIOLATION property={PID} replay={path}")
+            return 1
+        if data["kind"] == "pair":
+            text = r[1]["files"][MAIN[data["backend"]]]["text"]
+            print("emitted:", [ln.strip() for ln in text.splitlines() if "g_pair_value" in ln])
+            model = core.Model()
+            bad = pair_line_error(model, text, data["constants"][0], data["constants"][1])
+            model.close()
+        else:
+            text = "".join(f["text"] for f in r[1]["files"].values())
+            bad = [s_ for s_ in data.get("missing", []) if not any((pre + '"' + s_ + '"') in text for pre, _ in markers(data["backend"], "bank", None))]
+        print("oracle:", bad or "property holds on this input")
+        if bad:
             print(f"VIOLATION property={PID} replay={path}")
             return 1
         return 0
